@@ -19,10 +19,37 @@ func checkC07(cx *Ctx, r *Report) {
 		"no over-strict decoding or time check: the decoders reject only what InflateAndDecode / encoding/xml reject (plus the absent AttributeQuery); the time check rejects only an unparseable bound or a bound on the wrong side of now",
 		"verified octets are the received octets: the string handed to the redirect verifier is not rebuilt by re-encoding decoded values",
 		"certificates are compared modulo white space; key descriptors without 'use' count as signing keys; the value base64-decoded for POST verification is a base64 form value",
+		"the descriptor a request's Destination is compared with is built during that request for that request's issuer (not cached from another host's request), and its locations come from the configured endpoints and the request's issuer only",
+		"R-REJECT: every path on which a validation step of the SSO, logout or attribute-query chain (or a helper of package provider it calls) refuses a request carries a reason from the conformance table - a callee's verdict (storage, decoder, verifier), a required part absent/empty, Version != 2.0, Issuer != registered entity ID, no subject alternative, unsupported transport - so no step refuses for a condition a conformant request may satisfy",
 	}
 	r.NotDec = []string{"acceptance of every conformant serialisation (all prefix styles, timestamp precisions, KeyInfo layouts, percent-encoding styles): a liveness property over parsers and run-time values", "which fractional-second precisions time.Parse accepts for the layout"}
 	r.Assume = []string{"encoding/xml ignores namespace prefixes and attribute order"}
 
+	// --- reasons for refusing a request ----------------------------------------------------------------
+	cx.checkRejectReasons(r)
+	// --- the locations a Destination is compared with are those advertised to this request's host --------
+	for _, d := range []struct{ hk, short, fn, typ string }{
+		{kSSO, "sso", "provider.verifyRequestDestinationOfAuthRequest", "md.IDPSSODescriptorType"},
+		{kAttr, "attr", "provider.verifyRequestDestinationOfAttrQuery", "md.AttributeAuthorityDescriptorType"},
+	} {
+		vf := cx.vflow(d.hk)
+		if vf == nil {
+			continue
+		}
+		cx.checkDestinationContent(r, d.hk, d.short, d.fn)
+		lsm, msites := vf.CallArgSources(matchFnKey(w, d.fn), 0)
+		if len(msites) == 0 {
+			r.Fail("R-VFG", d.short+":destination:metadata", "", d.fn+" is not called from the chain")
+			continue
+		}
+		r.checkSources("R-VFG", d.short+":destination:metadata", w.InstrPos(msites[0]), lsm, []string{"alloc:{" + d.typ + "}*"}, []string{"alloc:{" + d.typ + "}*"}, false)
+		lc, cs := vf.CallArgSources(matchFnKey(w, "provider.(*IdentityProvider).GetMetadata"), 1)
+		if len(cs) > 0 {
+			r.checkSources("R-VFG", d.short+":destination:context", w.InstrPos(cs[0]), lc, []string{"ext:(*http.Request).Context#0"}, []string{"ext:(*http.Request).Context#0"}, true)
+		}
+	}
+	// --- "no supported binding" is a legitimate refusal only if the binding is the documented selection's -----
+	cx.checkSelectionResultsOnly(r)
 	// --- decode tables ---------------------------------------------------------------------------------
 	cx.checkTags(r, "R-TAG", "samlp.AuthnRequestType", "samlp.LogoutRequestType", "samlp.AttributeQueryType", "samlp.NameIDPolicyType", "saml.NameIDType", "saml.SubjectType", "saml.ConditionsType", "saml.AttributeType",
 		"soap.AttributeQueryEnvelope", "soap.AttributeQueryBody", "xml_dsig.SignatureType", "xml_dsig.SignatureValueType", "xml_dsig.KeyInfoType", "xml_dsig.X509DataType",
